@@ -4,14 +4,15 @@ from vlib.skyb import hx
 
 PID = "C15"
 LEAN_MODULE = "Sb.Properties.C15"
-THEOREMS = ["Sb.C15.mergeAll_contains", "Sb.C15.mergeAll_attained", "Sb.C15.mergeAll_some", "Sb.C15.extremaLinear_bounds", "Sb.C15.extremaLinear_attained", "Sb.C15.bounded_above_by_candidates", "Sb.C15.bounded_below_by_candidates"]
+THEOREMS = ["Sb.C15.mergeAll_contains", "Sb.C15.mergeAll_attained", "Sb.C15.mergeAll_some", "Sb.C15.extremaLinear_bounds", "Sb.C15.extremaLinear_attained", "Sb.C15.bounded_above_by_candidates", "Sb.C15.bounded_below_by_candidates",
+            "Sb.Corr.Cert.pos_sound", "Sb.Corr.Cert.root_sound", "Sb.Corr.Cert.segs_cover", "Sb.Corr.Cert.segs_roots", "Sb.Corr.Cert.partition_complete", "Sb.Corr.Cert.partition_sound", "Sb.Corr.Cert.reachesCert_true", "Sb.Corr.Cert.reachesCert_false", "Sb.Corr.Cert.hasRootCert_true", "Sb.Corr.Cert.hasRootCert_false", "Sb.Corr.Cert.rootsCert_complete", "Sb.Corr.Cert.rootsCert_sound", "Sb.Corr.Cert.sqrt2Segs_ok"]
 RULE = ("trajectory files (version 1/2, with/without checksum) with 0..8 segments whose x, y, z encodings are constant, linear or cubic in "
         "every combination, scales {1, 2, 10, 127}, coordinates small, seeded and at the int16 extremes, cubic shapes with interior extrema "
         "(overshoot, S-curves, zero end velocities); each loaded through a descriptor and from memory (answers must be bitwise equal); "
         "cubic encodings of lower-degree curves (degree-elevated quadratics, symmetric and collinear control points: exact cubic coefficient 0); "
         "histories of 2..8 same-length trajectories loaded one after the other from one caller buffer overwritten in place and through a descriptor; "
         "a separate stream with degree-7 encodings (recorded finding). Non-trivial: at least one segment.")
-ASSUMPTIONS = ["containment / tightness are decided exactly (Sturm sequences) against the exact Bezier polynomials, up to the float tolerance 64*2^-24*sum|coefficients| per segment"]
+ASSUMPTIONS = ["containment / tightness are decided exactly (certified root oracle, Sb/Proofs/CertSound.lean) against the exact Bezier polynomials, up to the float tolerance 64*2^-24*sum|coefficients| per segment"]
 
 
 def finding_signature(case, detail):
